@@ -109,4 +109,327 @@ theorem extractNS_getLsbD (p : Plane) (start size j : Nat) (h : PreXNS p start s
     rw [e1, e2]
   · simp [hj]
 
+
+theorem extract_getLsbD (p : Plane) (off size j : Nat) (h : PreX p off size) :
+    (extract p off size).getLsbD j = (decide (j < size) && bit p (off + j)) := by
+  obtain ⟨h1, h2, h3⟩ := h
+  unfold extract
+  simp only
+  have hwo : off % 64 < 64 := Nat.mod_lt _ (by omega)
+  by_cases hj : j < size
+  · have hj64 : j < 64 := by omega
+    split
+    · rename_i hst
+      simp only [BitVec.getLsbD_and, BitVec.getLsbD_or, BitVec.getLsbD_ushiftRight, BitVec.getLsbD_shiftLeft, bitMaskRange_getLsbD]
+      simp only [hj, hj64, decide_true, Nat.zero_le, Nat.zero_add, Bool.true_and, Bool.and_true]
+      unfold bit
+      by_cases hin : off % 64 + j < 64
+      · have e1 : (off + j) / 64 = off / 64 := by omega
+        have e2 : (off + j) % 64 = off % 64 + j := by omega
+        have : j < 64 - off % 64 := by omega
+        rw [e1, e2]; simp [this]
+      · have e1 : (off + j) / 64 = off / 64 + 1 := by omega
+        have e2 : (off + j) % 64 = j - (64 - off % 64) := by omega
+        have : ¬ j < 64 - off % 64 := by omega
+        rw [e1, e2]
+        have hz : (wget p (off / 64)).getLsbD (off % 64 + j) = false := BitVec.getLsbD_of_ge _ _ (by omega)
+        simp [this, hz]
+    · rename_i hst
+      simp only [BitVec.getLsbD_and, BitVec.getLsbD_ushiftRight, bitMaskRange_getLsbD]
+      simp only [hj, hj64, decide_true, Nat.zero_le, Nat.zero_add, Bool.true_and, Bool.and_true]
+      unfold bit
+      have e1 : (off + j) / 64 = off / 64 := by omega
+      have e2 : (off + j) % 64 = off % 64 + j := by omega
+      rw [e1, e2]
+  · split <;> simp [BitVec.getLsbD_and, bitMaskRange_getLsbD, hj]
+
+theorem bit_insert (p : Plane) (off size i : Nat) (v : W) (h : PreI p off size) :
+    bit (insert p off size v) i = if off ≤ i ∧ i < off + size then v.getLsbD (i - off) else bit p i := by
+  obtain ⟨h1, h2, h3⟩ := h
+  unfold insert
+  simp only
+  have hwo : off % 64 < 64 := Nat.mod_lt _ (by omega)
+  split
+  · rename_i hns
+    exact bit_insertNS p off size i v ⟨hns, h2⟩
+  · rename_i hst
+    have hst : off % 64 + size > 64 := by omega
+    have hl1 := h3 hst
+    have hl0 : off / 64 < p.length := by omega
+    rw [bit_wset _ _ _ _ (by rw [wset_length]; exact hl1)]
+    by_cases hw1 : i / 64 = off / 64 + 1
+    · simp only [hw1, if_true]
+      rw [bitfieldInsert_getLsbD]
+      have hi : i % 64 < 64 := Nat.mod_lt _ (by omega)
+      by_cases hc : i % 64 < (off % 64 + size) % 64
+      · have hin : off ≤ i ∧ i < off + size := by omega
+        rw [if_pos ⟨Nat.zero_le _, by omega, hi⟩, if_pos hin]
+        simp only [BitVec.getLsbD_ushiftRight]
+        congr 1; omega
+      · have hin : ¬ (off ≤ i ∧ i < off + size) := by omega
+        rw [if_neg (by omega), if_neg hin]
+        rw [wget_wset]
+        have : ¬ (off / 64 + 1 = off / 64 ∧ off / 64 < p.length) := by omega
+        rw [if_neg this]
+        unfold bit; rw [hw1]
+    · simp only [hw1, if_false]
+      rw [bit_wset _ _ _ _ hl0]
+      by_cases hw0 : i / 64 = off / 64
+      · simp only [hw0, if_true]
+        rw [bitfieldInsert_getLsbD]
+        have hi : i % 64 < 64 := Nat.mod_lt _ (by omega)
+        by_cases hc : off % 64 ≤ i % 64
+        · have hin : off ≤ i ∧ i < off + size := by omega
+          rw [if_pos ⟨hc, by omega, hi⟩, if_pos hin]
+          congr 1; omega
+        · have hin : ¬ (off ≤ i ∧ i < off + size) := by omega
+          rw [if_neg (by omega), if_neg hin]
+          unfold bit; rw [hw0]
+      · simp only [hw0, if_false]
+        have hin : ¬ (off ≤ i ∧ i < off + size) := by omega
+        rw [if_neg hin]
+
+theorem insert_length (p : Plane) (off size : Nat) (v : W) : (insert p off size v).length = p.length := by
+  unfold insert insertNS; simp only; split <;> (try split) <;> simp [wset_length]
+
+theorem insertNS_length (p : Plane) (off size : Nat) (v : W) : (insertNS p off size v).length = p.length := by
+  unfold insertNS; split <;> simp [wset_length]
+
+theorem fillWords_length (p : Plane) (wo : Nat) (c : W) (n : Nat) : (fillWords p wo c n).length = p.length := by
+  induction n with
+  | zero => rfl
+  | succ n ih => simp [fillWords, wset_length, ih]
+
+theorem bit_fillWords (p : Plane) (wo : Nat) (c : W) (n i : Nat) (h : wo + n ≤ p.length) :
+    bit (fillWords p wo c n) i = if wo ≤ i / 64 ∧ i / 64 < wo + n then c.getLsbD (i % 64) else bit p i := by
+  induction n with
+  | zero => simp [fillWords]; intro; omega
+  | succ n ih =>
+    simp only [fillWords]
+    rw [bit_wset _ _ _ _ (by rw [fillWords_length]; omega)]
+    by_cases hw : i / 64 = wo + n
+    · simp only [hw, if_true]
+      have : wo ≤ wo + n ∧ wo + n < wo + (n + 1) := by omega
+      rw [if_pos this]
+    · simp only [hw, if_false]
+      rw [ih (by omega)]
+      by_cases hc : wo ≤ i / 64 ∧ i / 64 < wo + n
+      · rw [if_pos hc, if_pos (by omega)]
+      · rw [if_neg hc, if_neg (by omega)]
+
+theorem content_getLsbD (b : Bool) (k : Nat) (hk : k < 64) : (if b then ~~~(0#64) else 0#64 : W).getLsbD k = b := by
+  cases b
+  · simp
+  · simp only [if_true, BitVec.reduceNot]; rw [ones_getLsbD]; simp [hk]
+
+theorem bit_setRange (p : Plane) (off size i : Nat) (b : Bool) (h : InRange p off size) :
+    bit (setRange p off size b) i = if off ≤ i ∧ i < off + size then b else bit p i := by
+  unfold InRange at h
+  unfold setRange
+  have hcg : ∀ k, k < 64 → (if b then ~~~(0#64) else 0#64 : W).getLsbD k = b := content_getLsbD b
+  generalize (if b then ~~~(0#64) else 0#64 : W) = content at hcg
+  simp only
+  have hi : i % 64 < 64 := Nat.mod_lt _ (by omega)
+  by_cases hal : off % 64 = 0
+  · -- aligned start: no head segment
+    simp only [hal, if_true, Nat.sub_zero]
+    by_cases htr : size % 64 > 0
+    · simp only [htr, if_true]
+      rw [bit_insertNS _ _ _ _ _ ⟨by omega, by intro; rw [fillWords_length]; omega⟩]
+      rw [bit_fillWords _ _ _ _ _ (by omega)]
+      (repeat' split) <;> first | rfl | (exact hcg _ (by omega)) | (exfalso; omega)
+    · simp only [htr, if_false]
+      rw [bit_fillWords _ _ _ _ _ (by omega)]
+      (repeat' split) <;> first | rfl | (exact hcg _ (by omega)) | (exfalso; omega)
+  · simp only [hal, if_false]
+    have hfw : min size (64 - off % 64) ≤ size := Nat.min_le_left _ _
+    have hfw2 : min size (64 - off % 64) ≤ 64 - off % 64 := Nat.min_le_right _ _
+    have hfw3 : min size (64 - off % 64) = size ∨ min size (64 - off % 64) = 64 - off % 64 := by omega
+    generalize min size (64 - off % 64) = fw at *
+    have hpre1 : PreNS p off fw := by
+      refine ⟨by omega, ?_⟩
+      intro hne
+      omega
+    by_cases htr : (size - fw) % 64 > 0
+    · simp only [htr, if_true]
+      rw [bit_insertNS _ _ _ _ _ ⟨by omega, by intro; rw [fillWords_length, insertNS_length]; omega⟩]
+      rw [bit_fillWords _ _ _ _ _ (by rw [insertNS_length]; omega)]
+      rw [bit_insertNS _ _ _ _ _ hpre1]
+      (repeat' split) <;> first | rfl | (exact hcg _ (by omega)) | (exfalso; omega)
+    · simp only [htr, if_false]
+      rw [bit_fillWords _ _ _ _ _ (by rw [insertNS_length]; omega)]
+      rw [bit_insertNS _ _ _ _ _ hpre1]
+      (repeat' split) <;> first | rfl | (exact hcg _ (by omega)) | (exfalso; omega)
+
+theorem copyChunks_length (dst src : Plane) (dOff sOff width fuel offset : Nat) :
+    (copyChunks dst src dOff sOff width fuel offset).length = dst.length := by
+  induction fuel generalizing dst offset with
+  | zero => rfl
+  | succ f ih =>
+    simp only [copyChunks]
+    split
+    · rw [ih, insert_length]
+    · rfl
+
+theorem bit_copyChunks (dst src : Plane) (dOff sOff width fuel offset i : Nat)
+    (hd : dOff + width ≤ 64 * dst.length) (hs : sOff + width ≤ 64 * src.length)
+    (hf : width - offset ≤ 64 * fuel) :
+    bit (copyChunks dst src dOff sOff width fuel offset) i =
+      if dOff + offset ≤ i ∧ i < dOff + width then bit src (sOff + (i - dOff)) else bit dst i := by
+  induction fuel generalizing dst offset with
+  | zero =>
+    simp only [copyChunks]
+    have : ¬ (dOff + offset ≤ i ∧ i < dOff + width) := by omega
+    rw [if_neg this]
+  | succ f ih =>
+    simp only [copyChunks]
+    split
+    · rename_i hlt
+      have hc1 : min 64 (width - offset) ≤ 64 := Nat.min_le_left _ _
+      have hc2 : min 64 (width - offset) ≤ width - offset := Nat.min_le_right _ _
+      have hc3 : min 64 (width - offset) = 64 ∨ min 64 (width - offset) = width - offset := by omega
+      generalize hck : min 64 (width - offset) = chunk at *
+      have hpi : PreI dst (dOff + offset) chunk := ⟨hc1, by intro; omega, by intro; omega⟩
+      have hpx : PreX src (sOff + offset) chunk := ⟨hc1, by omega, by intro; omega⟩
+      rw [ih _ _ (by rw [insert_length]; exact hd) (by omega)]
+      rw [bit_insert _ _ _ _ _ hpi]
+      by_cases hA : dOff + (offset + chunk) ≤ i ∧ i < dOff + width
+      · rw [if_pos hA, if_pos (by omega)]
+      · rw [if_neg hA]
+        by_cases hB : dOff + offset ≤ i ∧ i < dOff + offset + chunk
+        · rw [if_pos hB, if_pos (by omega), extract_getLsbD _ _ _ _ hpx]
+          have : i - (dOff + offset) < chunk := by omega
+          simp only [this, decide_true, Bool.true_and]
+          congr 1; omega
+        · rw [if_neg hB, if_neg (by omega)]
+    · rename_i hge
+      have : ¬ (dOff + offset ≤ i ∧ i < dOff + width) := by omega
+      rw [if_neg this]
+
+theorem memcpyBytes_length (dst src : Plane) (db sb n : Nat) : (memcpyBytes dst src db sb n).length = dst.length := by
+  induction n with
+  | zero => rfl
+  | succ n ih => simp [memcpyBytes, insertNS_length, ih]
+
+theorem bit_memcpyBytes (dst src : Plane) (db sb n i : Nat)
+    (hd : (db + n) * 8 ≤ 64 * dst.length) (hs : (sb + n) * 8 ≤ 64 * src.length) :
+    bit (memcpyBytes dst src db sb n) i =
+      if db * 8 ≤ i ∧ i < (db + n) * 8 then bit src (sb * 8 + (i - db * 8)) else bit dst i := by
+  induction n with
+  | zero => simp [memcpyBytes]; intro; omega
+  | succ n ih =>
+    simp only [memcpyBytes]
+    have hpn : PreNS (memcpyBytes dst src db sb n) ((db + n) * 8) 8 := ⟨by omega, by intro; rw [memcpyBytes_length]; omega⟩
+    have hpx : PreXNS src ((sb + n) * 8) 8 := ⟨by omega, by omega⟩
+    rw [bit_insertNS _ _ _ _ _ hpn, ih (by omega) (by omega)]
+    by_cases hA : (db + n) * 8 ≤ i ∧ i < (db + n) * 8 + 8
+    · rw [if_pos hA, if_pos (by omega), extractNS_getLsbD _ _ _ _ hpx]
+      have : i - (db + n) * 8 < 8 := by omega
+      simp only [this, decide_true, Bool.true_and]
+      congr 1; omega
+    · rw [if_neg hA]
+      by_cases hB : db * 8 ≤ i ∧ i < (db + n) * 8
+      · rw [if_pos hB, if_pos (by omega)]
+      · rw [if_neg hB, if_neg (by omega)]
+
+theorem bit_copyRange (dst src : Plane) (dOff sOff size i : Nat)
+    (hd : dOff + size ≤ 64 * dst.length) (hs : sOff + size ≤ 64 * src.length) :
+    bit (copyRange dst src dOff sOff size) i =
+      if dOff ≤ i ∧ i < dOff + size then bit src (sOff + (i - dOff)) else bit dst i := by
+  unfold copyRange
+  split
+  · rename_i hb
+    obtain ⟨hb1, hb2, hb3⟩ := hb
+    simp only
+    rw [bit_copyChunks _ _ _ _ _ _ _ _ (by rw [memcpyBytes_length]; omega) (by omega) (by omega)]
+    rw [bit_memcpyBytes _ _ _ _ _ _ (by omega) (by omega)]
+    by_cases hA : dOff + size / 8 * 8 + 0 ≤ i ∧ i < dOff + size / 8 * 8 + (size - size / 8 * 8)
+    · rw [if_pos hA, if_pos (by omega)]
+      congr 1; omega
+    · rw [if_neg hA]
+      by_cases hB : dOff / 8 * 8 ≤ i ∧ i < (dOff / 8 + size / 8) * 8
+      · rw [if_pos hB, if_pos (by omega)]
+        congr 1; omega
+      · rw [if_neg hB, if_neg (by omega)]
+  · rw [bit_copyChunks _ _ _ _ _ _ _ _ hd hs (by omega)]
+    simp
+
+
+theorem wget_of_ge (p : Plane) (k : Nat) (h : p.length ≤ k) : wget p k = 0#64 := by
+  unfold wget; simp [List.getD_eq_getElem?_getD, List.getElem?_eq_none h]
+
+theorem bit_of_ge (p : Plane) (i : Nat) (h : 64 * p.length ≤ i) : bit p i = false := by
+  unfold bit; rw [wget_of_ge _ _ (by omega)]; simp
+
+theorem resizePlane_length (p : Plane) (n : Nat) : (resizePlane p n).length = (n + 63) / 64 := by
+  unfold resizePlane
+  simp only
+  split <;> split <;> simp [wset_length] <;> omega
+
+theorem wget_take (p : Plane) (n k : Nat) : wget (p.take n) k = if k < n then wget p k else 0#64 := by
+  unfold wget
+  simp only [List.getD_eq_getElem?_getD, List.getElem?_take]
+  split <;> simp
+
+theorem wget_append_replicate (p : Plane) (m k : Nat) : wget (p ++ List.replicate m 0#64) k = wget p k := by
+  unfold wget
+  simp only [List.getD_eq_getElem?_getD, List.getElem?_append]
+  split
+  · rfl
+  · rename_i h
+    have : p[k]? = none := List.getElem?_eq_none (by omega)
+    rw [this]
+    simp [List.getElem?_replicate]
+    split <;> simp
+
+theorem bit_resizePlane (p : Plane) (n i : Nat) :
+    bit (resizePlane p n) i = (decide (i < n) && bit p i) := by
+  unfold resizePlane
+  simp only
+  have hi : i % 64 < 64 := Nat.mod_lt _ (by omega)
+  -- the plane after vector::resize
+  have hq : ∀ k, wget (if (n + 63) / 64 ≤ p.length then p.take ((n + 63) / 64) else p ++ List.replicate ((n + 63) / 64 - p.length) 0#64) k
+      = if k < (n + 63) / 64 then wget p k else 0#64 := by
+    intro k
+    split
+    · exact wget_take _ _ _
+    · rw [wget_append_replicate]
+      split
+      · rfl
+      · exact wget_of_ge _ _ (by omega)
+  have hql : (if (n + 63) / 64 ≤ p.length then p.take ((n + 63) / 64) else p ++ List.replicate ((n + 63) / 64 - p.length) 0#64).length = (n + 63) / 64 := by
+    split <;> simp <;> omega
+  generalize (if (n + 63) / 64 ≤ p.length then p.take ((n + 63) / 64) else p ++ List.replicate ((n + 63) / 64 - p.length) 0#64) = q at hq hql
+  split
+  · rename_i hm
+    rw [bit_wset _ _ _ _ (by omega)]
+    split
+    · rename_i hw
+      simp only [BitVec.getLsbD_and, bitMaskRange_getLsbD, hq]
+      have : (n + 63) / 64 - 1 < (n + 63) / 64 := by omega
+      simp only [this, if_true, hi, decide_true, Nat.zero_le, Nat.zero_add, Bool.true_and]
+      unfold bit
+      rw [hw]
+      have e : (i % 64 < n % 64) ↔ i < n := by omega
+      by_cases hc : i < n
+      · simp [hc, e.mpr hc, Bool.and_comm]
+      · have : ¬ (i % 64 < n % 64) := fun x => hc (e.mp x)
+        simp [hc, this]
+    · rename_i hw
+      unfold bit
+      rw [hq]
+      by_cases hc : i < n
+      · have : i / 64 < (n + 63) / 64 := by omega
+        simp [hc, this]
+      · have : ¬ i / 64 < (n + 63) / 64 := by omega
+        simp [hc, this]
+  · rename_i hm
+    unfold bit
+    rw [hq]
+    by_cases hc : i < n
+    · have : i / 64 < (n + 63) / 64 := by omega
+      simp [hc, this]
+    · have : ¬ i / 64 < (n + 63) / 64 := by omega
+      simp [hc, this]
+
 end Gatery.C18
